@@ -207,7 +207,9 @@ var Alphabet = []Op{
 		Do: func(s *Sys, c datatransfer.ChannelID, _ views.Vec) error {
 			return s.Ch.NewVoucher(c, doubles.Voucher("T", "v2"))
 		}},
-	{Name: "NewVoucherResult", Kind: "book", Roles: "ir", Enabled: func(v views.Vec) bool { return countList(v.Results) < 1 },
+	// the same result value may be issued twice in a row (e.g. a restart re-validation answering like the first
+	// validation): each issue is one log entry
+	{Name: "NewVoucherResult", Kind: "book", Roles: "ir", Enabled: func(v views.Vec) bool { return countList(v.Results) < 2 },
 		Do: func(s *Sys, c datatransfer.ChannelID, _ views.Vec) error {
 			return s.Ch.NewVoucherResult(c, doubles.Voucher("R", "r1"))
 		}},
